@@ -124,9 +124,10 @@ Proof. exact step_table_end_outside. Qed.
 Theorem C12_data_outside_table : forall cfg asset s rowno row,
   ps_cur s = None -> first_ok (nth 0 row CEmpty) = true -> is_err (row_step cfg asset s rowno row).
 Proof. exact step_data_outside. Qed.
+(** a keyword of a table type that ANY accepted prefix has already begun (with or without data rows) *)
 Theorem C12_repeated_table_step : forall cfg asset s t rowno row,
-  ps_cur s = None -> table_of_cell (nth 0 row CEmpty) = Some t -> set_empty s t = false -> is_err (row_step cfg asset s rowno row).
-Proof. exact step_repeated. Qed.
+  ps_cur s = None -> table_of_cell (nth 0 row CEmpty) = Some t -> seen_has t (ps_seen s) = true -> is_err (row_step cfg asset s rowno row).
+Proof. exact repeated_table_step. Qed.
 
 (** ---------- the sheet: a single faulty row after ANY accepted prefix, followed by ANYTHING *)
 Theorem C12_fault_at_any_position : forall cfg asset counter pre row post s,
@@ -140,7 +141,7 @@ Theorem C12_fault_in_rendered_sheet : forall cfg asset ai counter blocks a t gap
   str_index asset (pc_assets cfg) 0 = Some ai ->
   wf_blocks cfg asset 1 blocks -> NoDup (map (fun b => tab_code (b_tab b)) blocks) ->
   expect_blocks cfg (acc0 counter) 1 blocks = Ok a ->
-  tab_empty a t = true ->
+  tab_empty a t = true -> (forall b, In b blocks -> b_tab b <> t) ->
   (forall r, In r gap -> is_blank_row r = true) ->
   table_of_cell (nth 0 kw CEmpty) = Some t ->
   first_ok (nth 0 hdr CEmpty) = true ->
@@ -177,23 +178,31 @@ Theorem C12_unknown_asset : forall cfg asset counter rows,
   str_index asset (pc_assets cfg) 0 = None -> is_err (parse_sheet cfg asset counter rows).
 Proof. exact unknown_asset. Qed.
 
-(** repeated table: rejected wherever it comes, PROVIDED the earlier table of that type has data rows ... *)
+(** repeated table: the code remembers the table types it has begun (translated from parse_ods; this statement does not
+    compile against a tree that still tests the transaction set for emptiness) ... *)
+Theorem C12_code_remembers_tables : gen_parser_remembers_tables = true.
+Proof. exact code_parser_remembers_tables. Qed.
+
+(** ... so a second table of a type already present among ANY valid tables before it -- with or without data rows -- is
+    rejected, wherever it comes and whatever follows *)
 Theorem C12_repeated_table_rejected : forall cfg asset ai counter blocks a t gap kw post,
   str_index asset (pc_assets cfg) 0 = Some ai ->
   wf_blocks cfg asset 1 blocks -> NoDup (map (fun b => tab_code (b_tab b)) blocks) ->
   expect_blocks cfg (acc0 counter) 1 blocks = Ok a ->
-  (exists b, In b blocks /\ b_tab b = t /\ b_rows b <> []) ->
+  (exists b, In b blocks /\ b_tab b = t) ->
   (forall r, In r gap -> is_blank_row r = true) ->
   table_of_cell (nth 0 kw CEmpty) = Some t ->
   is_err (parse_sheet cfg asset counter (flat_map (render_block cfg asset) blocks ++ gap ++ kw :: post)).
 Proof. exact repeated_table_rejected. Qed.
 
-(** ... and NOT otherwise (finding F11): a sheet with two OUT tables, the first without data rows, is accepted and the
-    second table's row is processed *)
+(** witness for the other value of the flag (finding F11, repaired): a parser that tests the transaction set for emptiness
+    accepts a sheet with two OUT tables whose first has no data rows, and processes the second table's row; the parser that
+    remembers table types rejects the same sheet *)
 Theorem C12_repeated_table_refuted :
   exists cfg asset rows p,
     length (filter (fun r => match table_of_cell (nth 0 r CEmpty) with Some TabOut => true | _ => false end) rows) = 2%nat /\
-    parse_sheet cfg asset 0 rows = Ok p /\ length (pa_outs p) = 1%nat.
+    parse_sheet_gen false cfg asset 0 rows = Ok p /\ length (pa_outs p) = 1%nat /\
+    parse_sheet_gen true cfg asset 0 rows = Err EValue.
 Proof. exact repeated_table_refuted. Qed.
 
 (** ---------- configuration *)
@@ -267,6 +276,9 @@ Proof. exact fault_in_rendered_sheet_nonvacuous. Qed.
 Theorem C12_nonvacuous_repeated_table :
   is_err (parse_sheet ex_cfg ex_asset 0 (flat_map (render_block ex_cfg ex_asset) ex_first ++ [[CEmpty]] ++ [CStr [79; 117; 116]] :: [])).
 Proof. exact repeated_table_rejected_nonvacuous. Qed.
+Theorem C12_nonvacuous_repeated_after_empty_table :
+  is_err (parse_sheet ex_cfg ex_asset 0 (flat_map (render_block ex_cfg ex_asset) ex_empty_out ++ [] ++ [CStr [79; 85; 84]] :: [ex_hdr])).
+Proof. exact repeated_after_empty_table_nonvacuous. Qed.
 
 Print Assumptions C12_in_types.
 Print Assumptions C12_out_types.
@@ -288,6 +300,8 @@ Print Assumptions C12_fault_in_rendered_sheet.
 Print Assumptions C12_missing_table_end.
 Print Assumptions C12_missing_or_empty_in_table.
 Print Assumptions C12_unknown_asset.
+Print Assumptions C12_code_remembers_tables.
+Print Assumptions C12_repeated_table_step.
 Print Assumptions C12_repeated_table_rejected.
 Print Assumptions C12_repeated_table_refuted.
 Print Assumptions C12_header_fault_at_any_position.
@@ -299,3 +313,4 @@ Print Assumptions C12_from_date_after_to_date.
 Print Assumptions C12_unknown_asset_option.
 Print Assumptions C12_no_report_on_rejection.
 Print Assumptions C12_nonvacuous_fault_in_sheet.
+Print Assumptions C12_nonvacuous_repeated_after_empty_table.
